@@ -118,6 +118,8 @@ def run_case(c):
                         pyval = X.to_input(t2, op["new"], "xobj")
                     else:
                         pyval = X.to_input(et, op["new"], form)
+                        for i, j in op.get("omit", []):       # fields of a nested struct left unnamed
+                            del pyval[et["fields"][i][0]][et["fields"][i][1]["fields"][j][0]]
                 assign(t, top, op["path"], pyval, op.get("raw_index"))
             st["ok"] = True
         except BaseException as e:  # noqa
